@@ -1482,11 +1482,774 @@ fn run_deps(opts: &Opts) {
 	);
 }
 
+// ------------------------------------------------------------------------------------------------
+// histories: sequences of evaluations and settings changes on ONE long-lived VM / State
+//
+// A fresh `jrsonnet` process (or a fresh State) is the meaning of "the result for the current
+// settings".  A long-lived State keeps the value of every file whose evaluation SUCCEEDED (with the
+// memoized results of its lazy members - C16's known finding), so the generated files follow a
+// discipline that makes a fresh evaluation and a re-evaluation agree on the unchanged code:
+//   * files on disk never change inside a history;
+//   * everything in a file that depends on settings (ext vars, search-path imports, deep recursion,
+//     natives, other generated files) is FORCED by the file's top-level evaluation, so a file either
+//     fails as a whole (nothing is kept) or its value no longer depends on settings; function bodies
+//     and snippets (never cached) read settings lazily as well;
+//   * settings are only extended (new ext var, further search path with file names that exist in one
+//     directory only, higher stack limit with a margin of 20/30 frames around every recursion depth,
+//     natives registered); a variable is re-bound only when it is private to one file whose top-level
+//     evaluation fails while the variable has its first value; top-level arguments change freely.
+
+#[derive(Clone, Debug)]
+enum Req {
+	/// `std.extVar(name)` forced by the top-level evaluation
+	Ext { name: String },
+	/// variable private to the file: the top-level `assert` wants 'ok'
+	Guard { name: String },
+	/// variable private to the file: 'fail' makes the top-level evaluation reach `error`
+	Mode { name: String },
+	/// library file found through a search path only
+	Lib { dir: &'static str, file: &'static str },
+	/// recursion of this depth forced by the top-level evaluation
+	Deep { n: usize },
+	/// a native callback called by the top-level evaluation (C API only)
+	Native,
+	/// another generated file imported and forced by the top-level evaluation
+	File { idx: usize },
+}
+
+#[derive(Clone, Debug)]
+struct HFile {
+	name: String,
+	reqs: Vec<Req>,
+	is_fn: bool,
+	/// ext var read lazily (inside the function body / a field of a function result)
+	late: Option<String>,
+}
+
+const HLIBS: [(&str, &str); 3] = [("libA", "onlyA.libsonnet"), ("libB", "onlyB.libsonnet"), ("libC", "onlyC.libsonnet")];
+const STACKS: [usize; 4] = [130, 180, 260, 400];
+
+fn hfile_text(f: &HFile, files: &[HFile]) -> String {
+	let mut s = String::new();
+	let mut fields = vec![format!("name: '{}'", f.name)];
+	for (k, r) in f.reqs.iter().enumerate() {
+		let def = match r {
+			Req::Ext { name } => format!("std.extVar('{name}')"),
+			Req::Guard { name } => {
+				s.push_str(&format!("assert std.extVar('{name}') == 'ok' : 'guard {name}';\n"));
+				continue;
+			}
+			Req::Mode { name } => format!("if std.extVar('{name}') == 'fail' then error 'mode {name}' else 'ran'"),
+			Req::Lib { file, .. } => format!("import '{file}'"),
+			Req::Deep { n } => format!("(local f(n) = if n == 0 then 0 else 1 + f(n - 1); f({n}))"),
+			Req::Native => "std.native('nativeAdd')(2, 3.5)".to_owned(),
+			Req::File { idx } => format!("import '{}'", files[*idx].name),
+		};
+		s.push_str(&format!("local r{k} = {def};\nassert std.isString(std.type(r{k})) : 'forced';\n"));
+		fields.push(format!("r{k}: r{k}"));
+	}
+	if f.is_fn {
+		fields.push("p1: p1".to_owned());
+		fields.push("p2: p2".to_owned());
+		if let Some(l) = &f.late {
+			fields.push(format!("late: std.extVar('{l}')"));
+		}
+		s.push_str(&format!("function(p1, p2='d2') {{ {} }}\n", fields.join(", ")));
+	} else {
+		s.push_str(&format!("{{ {} }}\n", fields.join(", ")));
+	}
+	s
+}
+
+fn write_hist_tree(dir: &Path, files: &[HFile]) {
+	let _ = fs::remove_dir_all(dir);
+	let mut all: Vec<(String, String)> = vec![
+		("libA/onlyA.libsonnet".into(), "{ only: 'A' }".into()),
+		("libB/onlyB.libsonnet".into(), "{ only: 'B', data: importstr 'dataB.txt' }".into()),
+		("libB/dataB.txt".into(), "data from libB\n".into()),
+		// a library file with a requirement of its own
+		("libC/onlyC.libsonnet".into(), "local e = std.extVar('envC');\nassert std.isString(std.type(e)) : 'forced';\n{ only: 'C', env: e }".into()),
+		("data.txt".into(), "data next to main\n".into()),
+		("bad.jsonnet".into(), "{ a: ".into()),
+		("cycA.libsonnet".into(), "local b = import 'cycB.libsonnet';\nassert std.isString(std.type(b)) : 'forced';\n{ a: 1, b: b }".into()),
+		("cycB.libsonnet".into(), "local a = import 'cycA.libsonnet';\nassert std.isString(std.type(a)) : 'forced';\n{ b: 2, a: a }".into()),
+		("boom.libsonnet".into(), "local x = 1;\nif x == 1 then error 'always boom' else {}".into()),
+	];
+	for f in files {
+		all.push((f.name.clone(), hfile_text(f, files)));
+	}
+	for (p, c) in all {
+		let f = dir.join(p);
+		fs::create_dir_all(f.parent().expect("parent")).expect("mkdir");
+		fs::write(f, c).expect("write");
+	}
+}
+
+#[derive(Clone, Debug)]
+enum Step {
+	Ext { name: String, code: bool, payload: String },
+	Tla { name: String, code: bool, payload: String },
+	Jpath(String),
+	Stack(usize),
+	Natives,
+	StringOut(bool),
+	/// the VM is destroyed and a new one made (same process, same thread)
+	NewVm,
+	/// `file`: evaluate that file, otherwise the snippet `code`
+	Eval { file: Option<String>, code: String, mode: &'static str },
+}
+
+#[derive(Clone, Debug, Default)]
+struct HSettings {
+	ext: Vec<VarOpt>,
+	tla: Vec<VarOpt>,
+	jpath: Vec<String>,
+	stack: Option<usize>,
+	natives: bool,
+	string_out: bool,
+}
+impl HSettings {
+	fn ext_get(&self, n: &str) -> Option<&VarOpt> {
+		self.ext.iter().find(|e| e.name == n)
+	}
+	fn apply(&mut self, st: &Step) {
+		let set = |v: &mut Vec<VarOpt>, name: &str, code: bool, payload: &str| {
+			v.retain(|e| e.name != name);
+			v.push(VarOpt { fl: if code { "code" } else { "str" }, name: name.to_owned(), payload: payload.to_owned(), from_env: false });
+		};
+		match st {
+			Step::Ext { name, code, payload } => set(&mut self.ext, name, *code, payload),
+			Step::Tla { name, code, payload } => set(&mut self.tla, name, *code, payload),
+			Step::Jpath(d) => self.jpath.push(d.clone()),
+			Step::Stack(n) => self.stack = Some(*n),
+			Step::Natives => self.natives = true,
+			Step::StringOut(b) => self.string_out = *b,
+			// everything is a property of the VM, except the stack limit (a thread-local of the
+			// evaluator): a `max_stack` always follows
+			Step::NewVm => *self = Self { stack: self.stack, ..Self::default() },
+			Step::Eval { .. } => {}
+		}
+	}
+}
+
+#[derive(Clone, Debug)]
+enum Entry {
+	File(usize),
+	/// snippet text, generated files it reaches, ext vars it reads itself
+	Snip { code: String, roots: Vec<usize>, ext: Vec<String> },
+	/// evaluations that fail the same way whatever the settings (syntax error, import cycle, missing file, `error`)
+	Static { file: Option<String>, code: String },
+}
+
+fn good_ext_payload(rng: &mut Rng) -> (bool, String) {
+	if rng.chance(1, 2) {
+		(false, (*rng.pick(&["prod", "v", "", "é=ü", "x y"])).to_owned())
+	} else {
+		(true, (*rng.pick(&["1 + 2", "{ x: [1, 2] }", "import 'libA/onlyA.libsonnet'", "importstr 'data.txt'", "'s'"])).to_owned())
+	}
+}
+
+/// the setting changes that would satisfy what `file` (transitively) still lacks
+fn unmet_file(files: &[HFile], i: usize, st: &HSettings, rng: &mut Rng, out: &mut Vec<Step>) {
+	let need_ext = |name: &str, rng: &mut Rng, out: &mut Vec<Step>| {
+		if st.ext_get(name).is_none() && !out.iter().any(|s| matches!(s, Step::Ext { name: n, .. } if n == name)) {
+			let (code, payload) = good_ext_payload(rng);
+			out.push(Step::Ext { name: name.to_owned(), code, payload });
+		}
+	};
+	for r in &files[i].reqs {
+		match r {
+			Req::Ext { name } => need_ext(name, rng, out),
+			Req::Guard { name } => {
+				if st.ext_get(name).is_none_or(|e| e.fl != "str" || e.payload != "ok") {
+					out.push(Step::Ext { name: name.clone(), code: false, payload: "ok".into() });
+				}
+			}
+			Req::Mode { name } => {
+				if st.ext_get(name).is_none_or(|e| e.payload == "fail") {
+					out.push(Step::Ext { name: name.clone(), code: false, payload: "run".into() });
+				}
+			}
+			Req::Lib { dir, file } => {
+				if !st.jpath.iter().any(|j| j == dir) && !out.iter().any(|s| matches!(s, Step::Jpath(d) if d == dir)) {
+					out.push(Step::Jpath((*dir).to_owned()));
+				}
+				if *file == "onlyC.libsonnet" {
+					need_ext("envC", rng, out);
+				}
+			}
+			Req::Deep { n } => {
+				let want = *STACKS.iter().find(|s| **s >= n + 30).expect("stack table");
+				let have = st.stack.unwrap_or(200);
+				if have < n + 30 {
+					out.retain(|s| !matches!(s, Step::Stack(o) if *o < want));
+					if !out.iter().any(|s| matches!(s, Step::Stack(_))) {
+						out.push(Step::Stack(want));
+					}
+				}
+			}
+			Req::Native => {
+				if !st.natives && !out.iter().any(|s| matches!(s, Step::Natives)) {
+					out.push(Step::Natives);
+				}
+			}
+			Req::File { idx } => unmet_file(files, *idx, st, rng, out),
+		}
+	}
+}
+
+fn unmet(files: &[HFile], e: &Entry, st: &HSettings, rng: &mut Rng) -> Vec<Step> {
+	let mut out = vec![];
+	match e {
+		Entry::File(i) => {
+			unmet_file(files, *i, st, rng, &mut out);
+			if files[*i].is_fn {
+				if !st.tla.iter().any(|t| t.name == "p1" && t.payload != "error 'tla boom'") {
+					let (code, payload) = if rng.chance(1, 2) { (false, "tv".to_owned()) } else { (true, "[1, 2]".to_owned()) };
+					out.push(Step::Tla { name: "p1".into(), code, payload });
+				}
+				if let Some(l) = &files[*i].late {
+					if st.ext_get(l).is_none() {
+						let (code, payload) = good_ext_payload(rng);
+						out.push(Step::Ext { name: l.clone(), code, payload });
+					}
+				}
+			}
+		}
+		Entry::Snip { roots, ext, .. } => {
+			for r in roots {
+				unmet_file(files, *r, st, rng, &mut out);
+			}
+			for n in ext {
+				if st.ext_get(n).is_none() && !out.iter().any(|s| matches!(s, Step::Ext { name, .. } if name == n)) {
+					let (code, payload) = good_ext_payload(rng);
+					out.push(Step::Ext { name: n.clone(), code, payload });
+				}
+			}
+		}
+		Entry::Static { .. } => {}
+	}
+	out
+}
+
+struct History {
+	files: Vec<HFile>,
+	steps: Vec<Step>,
+}
+
+fn gen_history(rng: &mut Rng, capi: bool) -> History {
+	const SHARED: [&str; 3] = ["env", "region", "tier"];
+	let nf = 2 + rng.below(4);
+	let mut files: Vec<HFile> = vec![];
+	let nfn = rng.below(2);
+	for i in 0..nf {
+		// function files come last: they are entries only (a field holding a function does not manifest)
+		let is_fn = i >= nf - nfn;
+		let mut reqs = vec![];
+		for _ in 0..rng.below(4) {
+			let r = match rng.below(if capi { 14 } else { 13 }) {
+				0..=3 => Req::Ext { name: (*rng.pick(&SHARED)).to_owned() },
+				4 | 5 => Req::Guard { name: format!("g_{i}") },
+				6 => Req::Mode { name: format!("m_{i}") },
+				7..=9 => {
+					let (dir, file) = *rng.pick(&HLIBS);
+					Req::Lib { dir, file }
+				}
+				10 | 11 => Req::Deep { n: *rng.pick(&[60usize, 100, 150, 230]) },
+				12 => Req::Ext { name: format!("own_{i}") },
+				_ => Req::Native,
+			};
+			let dup = reqs.iter().any(|o| match (o, &r) {
+				(Req::Guard { .. }, Req::Guard { .. }) | (Req::Mode { .. }, Req::Mode { .. }) | (Req::Native, Req::Native) => true,
+				(Req::Ext { name: a }, Req::Ext { name: b }) => a == b,
+				(Req::Lib { file: a, .. }, Req::Lib { file: b, .. }) => a == b,
+				_ => false,
+			});
+			if !dup {
+				reqs.push(r);
+			}
+		}
+		files.push(HFile { name: format!("f{i}.jsonnet"), reqs, is_fn, late: if is_fn && rng.chance(1, 2) { Some((*rng.pick(&["late", "env"])).to_owned()) } else { None } });
+	}
+	// imports between generated files: towards higher indices only (no cycles), never a function file
+	for i in 0..nf {
+		for j in i + 1..nf {
+			if !files[j].is_fn && rng.chance(2, 5) {
+				let at = rng.below(files[i].reqs.len() + 1);
+				files[i].reqs.insert(at, Req::File { idx: j });
+			}
+		}
+	}
+	let mut st = HSettings::default();
+	let mut steps: Vec<Step> = vec![];
+	let push = |steps: &mut Vec<Step>, st: &mut HSettings, s: Step| {
+		st.apply(&s);
+		steps.push(s);
+	};
+	// ---- initial settings: some requirements met in advance, private variables start with their failing value
+	if rng.chance(2, 3) {
+		push(&mut steps, &mut st, Step::Stack(*rng.pick(&[40usize, 40, 130, 180])));
+	}
+	for n in SHARED {
+		if rng.chance(1, 4) {
+			let (code, payload) = good_ext_payload(rng);
+			push(&mut steps, &mut st, Step::Ext { name: n.to_owned(), code, payload });
+		}
+	}
+	for (d, _) in HLIBS {
+		if rng.chance(1, 5) {
+			push(&mut steps, &mut st, Step::Jpath(d.to_owned()));
+		}
+	}
+	if capi && rng.chance(1, 4) {
+		push(&mut steps, &mut st, Step::Natives);
+	}
+	for f in &files {
+		for r in &f.reqs {
+			match r {
+				Req::Guard { name } => match rng.below(6) {
+					0 | 1 => {}
+					2 | 3 => push(&mut steps, &mut st, Step::Ext { name: name.clone(), code: false, payload: "bad".into() }),
+					4 => push(&mut steps, &mut st, Step::Ext { name: name.clone(), code: true, payload: "error 'ext boom'".into() }),
+					_ => push(&mut steps, &mut st, Step::Ext { name: name.clone(), code: false, payload: "ok".into() }),
+				},
+				Req::Mode { name } => match rng.below(4) {
+					0 | 1 => push(&mut steps, &mut st, Step::Ext { name: name.clone(), code: false, payload: "fail".into() }),
+					2 => {}
+					_ => push(&mut steps, &mut st, Step::Ext { name: name.clone(), code: false, payload: "run".into() }),
+				},
+				_ => {}
+			}
+		}
+	}
+	if rng.chance(1, 5) {
+		push(&mut steps, &mut st, Step::Tla { name: "p1".into(), code: true, payload: "error 'tla boom'".into() });
+	}
+	// ---- episodes
+	let mut done: Vec<Entry> = vec![];
+	let mut evals = 0usize;
+	let modes = |rng: &mut Rng| -> &'static str {
+		if !capi {
+			return "plain";
+		}
+		match rng.below(10) {
+			0..=6 => "plain",
+			7 | 8 => "multi",
+			_ => "stream",
+		}
+	};
+	let eval_step = |e: &Entry, files: &[HFile], mode: &'static str| -> Step {
+		match e {
+			Entry::File(i) => Step::Eval { file: Some(files[*i].name.clone()), code: String::new(), mode },
+			Entry::Snip { code, .. } => Step::Eval { file: None, code: code.clone(), mode },
+			Entry::Static { file, code } => Step::Eval { file: file.clone(), code: code.clone(), mode },
+		}
+	};
+	let nep = 2 + rng.below(3);
+	for _ in 0..nep {
+		if evals >= 14 {
+			break;
+		}
+		let entry = match rng.below(10) {
+			0 => {
+				let (file, code) = match rng.below(5) {
+					0 => (Some("bad.jsonnet".to_owned()), String::new()),
+					1 => (Some("cycA.libsonnet".to_owned()), String::new()),
+					2 => (None, "import 'missing.jsonnet'".to_owned()),
+					3 => (None, "{ a: import 'cycB.libsonnet' }".to_owned()),
+					_ => (Some("boom.libsonnet".to_owned()), String::new()),
+				};
+				Entry::Static { file, code }
+			}
+			1..=3 => {
+				let i = rng.below(nf);
+				let n = &files[i].name;
+				let x = (*rng.pick(&SHARED)).to_owned();
+				if files[i].is_fn {
+					Entry::Snip { code: format!("{{ called: (import '{n}')('arg'), x: std.extVar('{x}') }}"), roots: vec![i], ext: { let mut v = vec![x.clone()]; v.extend(files[i].late.clone()); v } }
+				} else {
+					match rng.below(4) {
+						0 => Entry::Snip { code: format!("import '{n}'"), roots: vec![i], ext: vec![] },
+						1 => Entry::Snip { code: format!("{{ a: import '{n}', s: std.length(importstr '{n}') }}"), roots: vec![i], ext: vec![] },
+						2 => Entry::Snip { code: format!("{{ v: std.extVar('{x}'), i: (import '{n}').name }}"), roots: vec![i], ext: vec![x] },
+						_ => {
+							let j = rng.below(nf);
+							if files[j].is_fn {
+								Entry::Snip { code: format!("local a = import '{n}'; {{ a: a }}"), roots: vec![i], ext: vec![] }
+							} else {
+								Entry::Snip { code: format!("{{ a: import '{n}', b: import '{}' }}", files[j].name), roots: vec![i, j], ext: vec![] }
+							}
+						}
+					}
+				}
+			}
+			_ => Entry::File(rng.below(nf)),
+		};
+		let mut rounds = 0;
+		loop {
+			push(&mut steps, &mut st, eval_step(&entry, &files, modes(rng)));
+			evals += 1;
+			let mut fixes = unmet(&files, &entry, &st, rng);
+			if fixes.is_empty() || rounds >= 6 || evals >= 16 {
+				break;
+			}
+			rounds += 1;
+			// mostly one change at a time, sometimes several, sometimes everything that is missing
+			let k = match rng.below(6) {
+				0 => fixes.len(),
+				1 => 1 + rng.below(fixes.len()),
+				_ => 1,
+			};
+			for _ in 0..k {
+				let f = fixes.remove(rng.below(fixes.len()));
+				push(&mut steps, &mut st, f);
+			}
+		}
+		if capi && rng.chance(1, 6) {
+			let b = !st.string_out;
+			push(&mut steps, &mut st, Step::StringOut(b));
+		}
+		if rng.chance(1, 3) {
+			// the same evaluation again, nothing changed
+			push(&mut steps, &mut st, eval_step(&entry, &files, modes(rng)));
+			evals += 1;
+		}
+		if rng.chance(1, 4) {
+			// top-level arguments are applied per call: they may change at any time
+			let (code, payload) = if rng.chance(1, 2) { (false, "tv2".to_owned()) } else { (true, "{ t: 1 }".to_owned()) };
+			push(&mut steps, &mut st, Step::Tla { name: (*rng.pick(&["p1", "p2"])).to_owned(), code, payload });
+		}
+		if !done.is_empty() && rng.chance(1, 3) {
+			let e = done[rng.below(done.len())].clone();
+			push(&mut steps, &mut st, eval_step(&e, &files, modes(rng)));
+			evals += 1;
+		}
+		done.push(entry);
+		if capi && rng.chance(1, 7) {
+			// a new VM in the same process: nothing of the old one may be left (any stack limit is fine,
+			// nothing is cached yet)
+			push(&mut steps, &mut st, Step::NewVm);
+			push(&mut steps, &mut st, Step::Stack(*rng.pick(&[40usize, 130, 180, 260])));
+		}
+	}
+	History { files, steps }
+}
+
+fn step_show(s: &Step) -> String {
+	match s {
+		Step::Ext { name, code, payload } => format!("ext_{} {name}={payload}", if *code { "code" } else { "var" }),
+		Step::Tla { name, code, payload } => format!("tla_{} {name}={payload}", if *code { "code" } else { "var" }),
+		Step::Jpath(d) => format!("jpath_add {d}"),
+		Step::Stack(n) => format!("max_stack {n}"),
+		Step::Natives => "native_callback x4".to_owned(),
+		Step::StringOut(b) => format!("string_output {}", u8::from(*b)),
+		Step::NewVm => "destroy; make".to_owned(),
+		Step::Eval { file: Some(f), mode, .. } => format!("evaluate_file[{mode}] {f}"),
+		Step::Eval { file: None, code, mode } => format!("evaluate_snippet[{mode}] {code}"),
+	}
+}
+
+fn hist_files_json(dir: &Path, files: &[HFile]) -> Value {
+	let mut m = serde_json::Map::new();
+	for f in files {
+		m.insert(f.name.clone(), json!(fs::read_to_string(dir.join(&f.name)).unwrap_or_default()));
+	}
+	Value::Object(m)
+}
+
+/// search paths grow while the State lives
+#[derive(Acyclic)]
+struct GrowingResolver {
+	inner: RefCell<FileImportResolver>,
+}
+impl ImportResolver for GrowingResolver {
+	fn resolve_from(&self, from: &SourcePath, path: &dyn AsPathLike) -> JrResult<SourcePath> {
+		self.inner.borrow().resolve_from(from, path)
+	}
+	fn resolve_from_default(&self, path: &dyn AsPathLike) -> JrResult<SourcePath> {
+		self.inner.borrow().resolve_from_default(path)
+	}
+	fn load_file_contents(&self, resolved: &SourcePath) -> JrResult<Vec<u8>> {
+		self.inner.borrow().load_file_contents(resolved)
+	}
+}
+
+fn tla_arg(v: &VarOpt) -> TlaArg {
+	match v.fl {
+		"str" => TlaArg::String(v.payload.as_str().into()),
+		"str-file" => TlaArg::ImportStr(v.payload.clone()),
+		"code" => TlaArg::InlineCode(v.payload.clone()),
+		_ => TlaArg::Import(v.payload.clone()),
+	}
+}
+
+fn cli_args_at(st: &HSettings, file: &Option<String>, code: &str) -> Vec<String> {
+	let mut args: Vec<String> = vec![];
+	args.extend(st.ext.iter().flat_map(|v| v.args("ext")));
+	args.extend(st.tla.iter().flat_map(|v| v.args("tla")));
+	for j in &st.jpath {
+		args.push("-J".into());
+		args.push(j.clone());
+	}
+	args.push("-s".into());
+	args.push(st.stack.unwrap_or(200).to_string());
+	match file {
+		Some(f) => args.push(f.clone()),
+		None => {
+			args.push("-e".into());
+			args.push(code.to_owned());
+		}
+	}
+	args
+}
+
+fn run_hist(opts: &Opts) {
+	let mut w = CaseWriter::new(&opts.out);
+	let mut rng = Rng::new(opts.seed ^ 0x15_4157);
+	let driver = match build_c_driver(&opts.out) {
+		Ok(d) => d,
+		Err(e) => {
+			eprintln!("cannot build the C driver: {e}");
+			std::process::exit(3);
+		}
+	};
+	let exe = bin("jrsonnet");
+	let root = opts.out.join("fs");
+	let _ = fs::remove_dir_all(&root);
+	fs::create_dir_all(&root).expect("mkdir");
+	let root = root.canonicalize().expect("canon");
+	let mut hist = BTreeMap::<String, usize>::new();
+	let t_all = std::time::Instant::now();
+	let n_capi = if opts.thorough() { 500 } else { 70 };
+	let n_rust = if opts.thorough() { 160 } else { 22 };
+	// ---- phase 1: histories, their file trees, the process jobs ----
+	let mut hs: Vec<(bool, PathBuf, History)> = vec![];
+	// (program, arguments, directory)
+	let mut jobs: Vec<(PathBuf, Vec<String>, PathBuf)> = vec![];
+	// job index of history `hi`'s driver run / of each evaluation step of a Rust-API history
+	let mut job_of: Vec<Vec<usize>> = vec![];
+	for hi in 0..n_capi + n_rust {
+		let capi = hi < n_capi;
+		let h = gen_history(&mut rng, capi);
+		let dir = root.join(format!("{}{hi}", if capi { "c" } else { "r" }));
+		write_hist_tree(&dir, &h.files);
+		let mut mine = vec![];
+		if capi {
+			let mut script = String::new();
+			for s in &h.steps {
+				let line = match s {
+					Step::Ext { name, code, payload } => format!("{} {} {}\n", if *code { "extcode" } else { "extvar" }, hex(name), hex(payload)),
+					Step::Tla { name, code, payload } => format!("{} {} {}\n", if *code { "tlacode" } else { "tlavar" }, hex(name), hex(payload)),
+					Step::Jpath(d) => format!("jpath {}\n", hex(&dir.join(d).to_string_lossy())),
+					Step::Stack(n) => format!("maxstack {n}\n"),
+					Step::Natives => "native\n".to_owned(),
+					Step::StringOut(b) => format!("stringout {}\n", u8::from(*b)),
+					Step::NewVm => "newvm\n".to_owned(),
+					Step::Eval { file: Some(f), mode, .. } => format!("file {} {mode}\n", hex(&dir.join(f).to_string_lossy())),
+					Step::Eval { file: None, code, mode } => format!("snippet {} {} {mode}\n", hex("snip"), hex(code)),
+				};
+				script.push_str(&line);
+			}
+			let sfile = dir.join("script.txt");
+			fs::write(&sfile, &script).expect("script");
+			mine.push(jobs.len());
+			jobs.push((driver.clone(), vec![sfile.to_string_lossy().to_string()], dir.clone()));
+		} else {
+			let mut st = HSettings::default();
+			for s in &h.steps {
+				st.apply(s);
+				if let Step::Eval { file, code, .. } = s {
+					mine.push(jobs.len());
+					jobs.push((exe.clone(), cli_args_at(&st, file, code), dir.clone()));
+				}
+			}
+		}
+		job_of.push(mine);
+		hs.push((capi, dir, h));
+	}
+	// ---- phase 2: the processes (one VM per C API history; one fresh process per Rust-API step) ----
+	let t0 = std::time::Instant::now();
+	let outputs: Vec<std::process::Output> = std::thread::scope(|sc| {
+		let nthreads = 8;
+		let handles: Vec<_> = (0..nthreads)
+			.map(|t| {
+				let jobs = &jobs;
+				sc.spawn(move || {
+					(0..jobs.len())
+						.filter(|i| i % nthreads == t)
+						.map(|i| {
+							let (prog, args, dir) = &jobs[i];
+							let o = Command::new(prog).args(args).current_dir(dir).env_remove("JSONNET_PATH").env("RUST_BACKTRACE", "0").output().expect("run");
+							(i, o)
+						})
+						.collect::<Vec<_>>()
+				})
+			})
+			.collect();
+		let mut all: Vec<(usize, std::process::Output)> = handles.into_iter().flat_map(|h| h.join().expect("join")).collect();
+		all.sort_by_key(|x| x.0);
+		all.into_iter().map(|x| x.1).collect()
+	});
+	let t_procs = t0.elapsed().as_secs_f64();
+	// ---- phase 3: references / the long-lived State, in this process ----
+	for (hi, (capi, dir, h)) in hs.iter().enumerate() {
+		std::env::set_current_dir(dir).expect("chdir");
+		let files_json = hist_files_json(dir, &h.files);
+		let mut st = HSettings::default();
+		let mut shown: Vec<String> = vec![];
+		let mut nev = 0usize;
+		let mut failed_before = false;
+		if *capi {
+			// C API: the VM lived through the whole script; reference = a fresh State per step
+			let o = &outputs[job_of[hi][0]];
+			let stdout = String::from_utf8_lossy(&o.stdout).to_string();
+			let mut rlines = stdout.lines().filter(|l| l.starts_with("R "));
+			for s in &h.steps {
+				st.apply(s);
+				shown.push(step_show(s));
+				let Step::Eval { file, code, mode } = s else { continue };
+				nev += 1;
+				let impl_ans = match rlines.next() {
+					Some(l) => {
+						let mut it = l.split(' ');
+						it.next();
+						let err: i64 = it.next().and_then(|e| e.parse().ok()).unwrap_or(-1);
+						let raw = unhex(it.next().unwrap_or("-"));
+						if err == 0 {
+							json!({"err": 0, "raw": raw})
+						} else {
+							json!({"err": err, "_msg": String::from_utf8_lossy(&raw).chars().take(200).collect::<String>()})
+						}
+					}
+					None => json!({"panic": format!("driver status {:?}: {}", o.status.code(), String::from_utf8_lossy(&o.stderr).chars().take(300).collect::<String>())}),
+				};
+				let sc = Scenario {
+					ext: st.ext.clone(),
+					tla: st.tla.clone(),
+					jpath: st.jpath.clone(),
+					env: None,
+					stack: st.stack,
+					code: code.clone(),
+					as_file: file.is_some(),
+					natives: st.natives,
+				};
+				let main = match file {
+					Some(f) => dir.join(f).to_string_lossy().to_string(),
+					None => "snip".to_owned(),
+				};
+				let paths: Vec<PathBuf> = st.jpath.iter().rev().map(|p| dir.join(p)).collect();
+				let format: Box<dyn ManifestFormat> = if st.string_out { Box::new(ToStringFormat) } else { Box::new(JsonFormat::default()) };
+				let lib = lib_run(&sc, paths, &main, &*format, mode, st.stack.unwrap_or(200));
+				let b = |s: &String| -> Vec<u8> { s.as_bytes().to_vec() };
+				let out = match lib {
+					LibOut::Err | LibOut::ManErr => json!({"err": true}),
+					LibOut::Panic(p) => json!({"err": true, "_lib_panic": p}),
+					LibOut::Text(t) => json!({"text": b(&t)}),
+					LibOut::Kvs(kvs) => json!({"kvs": kvs.iter().map(|(k, v)| json!([b(k), b(v)])).collect::<Vec<_>>()}),
+					LibOut::Vs(vs) => json!({"vs": vs.iter().map(b).collect::<Vec<_>>()}),
+					LibOut::Fields(_) => unreachable!(),
+				};
+				let ok = out.get("err").is_none();
+				*hist.entry(format!("capi.step.{}", if ok { "ok" } else { "err" })).or_default() += 1;
+				if ok && failed_before {
+					*hist.entry("capi.ok-after-failure".into()).or_default() += 1;
+				}
+				failed_before |= !ok;
+				*hist.entry(format!("capi.mode.{mode}")).or_default() += 1;
+				w.case(
+					json!({"op":"capi.frame","mode":mode,"out":out,"size": shown.len() + shown.iter().map(String::len).sum::<usize>() / 40,
+						"_history": shown.clone(), "_files": files_json, "_step": nev, "_h": hi}),
+					impl_ans,
+				);
+			}
+			*hist.entry(format!("capi.evals.{:02}", nev.min(16))).or_default() += 1;
+			continue;
+		}
+		// Rust API: ONE State for the whole history, used the way the executable uses a State;
+		// reference = the fresh process of phase 2
+		let ctx = ContextInitializer::new(PathResolver::new_cwd_fallback());
+		let mut sb = State::builder();
+		sb.import_resolver(GrowingResolver { inner: RefCell::new(FileImportResolver::default()) }).context_initializer(ctx.clone());
+		let s = sb.build();
+		let format = format_of("json:3");
+		for step in &h.steps {
+			st.apply(step);
+			shown.push(step_show(step));
+			match step {
+				Step::Ext { name, code, payload } => {
+					if *code {
+						ctx.add_ext_code(name, payload).expect("ext code");
+					} else {
+						ctx.add_ext_str(name.as_str().into(), payload.as_str().into());
+					}
+				}
+				Step::Jpath(d) => {
+					let r = s.import_resolver() as &dyn std::any::Any;
+					r.downcast_ref::<GrowingResolver>().expect("resolver").inner.borrow_mut().add_jpath(dir.join(d));
+				}
+				_ => {}
+			}
+			let Step::Eval { file, code, .. } = step else { continue };
+			let stack = st.stack.unwrap_or(200);
+			let r = guarded(|| -> JrResult<Result<String, ()>> {
+				let _entered = s.enter();
+				let _limit = limit_stack_depth(stack);
+				let val = match file {
+					Some(f) => s.import(f.as_str())?,
+					None => s.evaluate_snippet("<cmdline>".to_owned(), code.clone())?,
+				};
+				let mut tla: FxHashMap<IStr, TlaArg> = FxHashMap::default();
+				for t in &st.tla {
+					tla.insert(t.name.as_str().into(), tla_arg(t));
+				}
+				let val = apply_tla(&tla, val)?;
+				Ok(format.manifest(val).map_err(|_| ()))
+			});
+			let out = match r {
+				Ok(Ok(Ok(t))) => json!({"k":"text","t":t}),
+				Ok(Ok(Err(()))) => json!({"k":"manErr"}),
+				Ok(Err(e)) => json!({"k":"err","_msg":format!("{}", e.error()).chars().take(200).collect::<String>()}),
+				Err(p) => json!({"k":"err","_lib_panic":p}),
+			};
+			let o = &outputs[job_of[hi][nev]];
+			nev += 1;
+			let impl_ans = json!({
+				"stdout": String::from_utf8_lossy(&o.stdout),
+				"stderr": !o.stderr.is_empty(),
+				"exit": o.status.code().unwrap_or(-1),
+				"files": [],
+				"_stderr": String::from_utf8_lossy(&o.stderr).chars().take(300).collect::<String>(),
+			});
+			let ok = out["k"] == "text";
+			*hist.entry(format!("rust.step.{}", if ok { "ok" } else { "err" })).or_default() += 1;
+			if ok && failed_before {
+				*hist.entry("rust.ok-after-failure".into()).or_default() += 1;
+			}
+			failed_before |= !ok;
+			w.case(
+				json!({"op":"cli.render","mode":{"k":"stdout"},"fmt":Fmt::default().json(),"out":out,
+					"size": shown.len() + shown.iter().map(String::len).sum::<usize>() / 40,
+					"_history": shown.clone(), "_files": files_json, "_args": cli_args_at(&st, file, code), "_step": nev, "_h": hi}),
+				impl_ans,
+			);
+		}
+		*hist.entry(format!("rust.evals.{:02}", nev.min(16))).or_default() += 1;
+	}
+	let n = w.n;
+	w.finish(
+		json!({"engine":"c15hist","cases":n,"histories_capi":n_capi,"histories_rust":n_rust,"processes":jobs.len(),"hist":hist,
+			"_seconds":{"processes_8_threads":t_procs,"total":t_all.elapsed().as_secs_f64()},
+			"rule":"histories on ONE libjsonnet VM (C driver, one process per history) and on ONE Rust State: 2-5 generated files whose top-level evaluation forces ext vars (shared and private), search-path imports, recursion against the stack limit, natives and each other; evaluations of files / snippets / imported files / function files that fail at run time (unbound ext var or TLA, failing top-level assert, error, stack limit, unresolvable import, missing native, failing TLA code) followed by one or several settings changes (ext_var/ext_code, tla_var/tla_code, jpath_add, max_stack raised, natives, string_output) and the same evaluation again, plus unchanged repeats, earlier entries again, syntax errors, import cycles, missing files; after every evaluation the VM's bytes equal the framing of a FRESH State's result for the settings in force (capi.frame) and the State's result equals a FRESH jrsonnet process's stdout/exit/stderr (cli.render)"}),
+		&opts.out,
+	);
+}
+
 pub fn run(opts: &Opts) {
 	match opts.engine.as_str() {
 		"c15run" => run_cli(opts),
 		"c15capi" => run_capi(opts),
 		"c15deps" => run_deps(opts),
+		"c15hist" => run_hist(opts),
 		_ => run_plumb(opts),
 	}
 }
